@@ -104,13 +104,28 @@ def check(chk, repo, tier):
 
     total_reads = 0
     compare_reads = 0
+    # helpers that are only called from other functions of the module with
+    # token arguments are analysed in their callers' context (inlined)
+    called = set()
+    for fn in pmod.functions.values():
+        for n in ast.walk(fn):
+            if isinstance(n, ast.Call) and isinstance(n.func, ast.Name) \
+                    and n.func.id in pmod.functions \
+                    and n.func.id != fn.name:
+                called.add(n.func.id)
+    entry = {"parse", "_get_branches", "process_parameters", "variable_name"}
     for fname, fn in pmod.functions.items():
-        w = KindWalker(kinds, fold_parse)
+        if fname in called and fname not in entry:
+            continue
+        w = KindWalker(kinds, fold_parse, functions={
+            k: v for k, v in pmod.functions.items()
+            if k not in entry})
         for rd in w.run(fn):
             total_reads += 1
             if rd.role == "compare":
                 compare_reads += 1
-            judge_read(chk, rd, fname, "parse", langs, fold_parse, PF, pmod)
+            owner = getattr(rd.fn, "name", fname)
+            judge_read(chk, rd, owner, "parse", langs, fold_parse, PF, pmod)
     chk.floor("reads of token .value in parse.py", total_reads, 15)
     chk.floor("of which inside comparisons", compare_reads, 10)
 
